@@ -401,6 +401,9 @@ func (bs *blockState) load0(lv lvalue, ins ssa.Instruction) Val {
 		return e.loadField(bs.st, lv.stT, lv.fidx, lv.obj)
 	case "elem":
 		return e.elemAt(bs.st, lv.elemT, lv.obj, lv.idx)
+	case "elemfield":
+		full := e.elemAt(bs.st, lv.elemT, lv.obj, lv.idx)
+		return Val{lv.typ, full.C[lv.lo:lv.hi]}
 	case "ptr":
 		bs.assertG(fmt.Sprintf("nil.%d", e.ordinal("nil")), "nil", not(eq(lv.obj, "0")), "nil dereference", ins)
 		return e.loadPtr(bs.st, lv.typ, lv.obj)
@@ -410,7 +413,9 @@ func (bs *blockState) load0(lv lvalue, ins ssa.Instruction) Val {
 	panic("load " + lv.kind)
 }
 
-func globalKey(g *ssa.Global, j int) string { return fmt.Sprintf("g:%s.%s:%d", g.Pkg.Pkg.Name(), g.Name(), j) }
+func globalKey(g *ssa.Global, j int) string {
+	return fmt.Sprintf("g:%s.%s:%d", g.Pkg.Pkg.Name(), g.Name(), j)
+}
 
 func (e *Enc) loadGlobal(st *State, g *ssa.Global) Val {
 	t := g.Type().Underlying().(*types.Pointer).Elem()
@@ -457,6 +462,11 @@ func (bs *blockState) storeTo(lv lvalue, v Val, ins ssa.Instruction) {
 		e.storeField(bs.st, lv.stT, lv.fidx, lv.obj, v)
 	case "elem":
 		e.elemStore(bs.st, lv.elemT, lv.obj, lv.idx, v)
+	case "elemfield":
+		full := e.elemAt(bs.st, lv.elemT, lv.obj, lv.idx)
+		nv := Val{T: lv.elemT, C: append([]string{}, full.C...)}
+		copy(nv.C[lv.lo:lv.hi], v.C)
+		e.elemStore(bs.st, lv.elemT, lv.obj, lv.idx, nv)
 	case "ptr":
 		bs.assertG(fmt.Sprintf("nil.%d", e.ordinal("nil")), "nil", not(eq(lv.obj, "0")), "nil dereference", ins)
 		e.storePtr(bs.st, lv.typ, lv.obj, v)
